@@ -66,17 +66,59 @@ def run(cmd, cwd=None, env=None, timeout=None, capture=True):
             (e.stderr or b"").decode("utf-8", "replace"), time.time() - t0
 
 
-def run_resumable(make_cmd, items, key, workdir_, tag, timeout, max_restarts=40):
+def _popen_watch(cmd, outp, timeout, item_timeout):
+    """Run cmd; kill it if the whole run exceeds `timeout` or if the progress
+    file names the same item for longer than `item_timeout` seconds.
+    Returns (rc | 'timeout' | 'item_timeout', stderr_tail)."""
+    import tempfile
+    t0 = time.time()
+    errf = tempfile.TemporaryFile()
+    p = subprocess.Popen(cmd, stdout=subprocess.DEVNULL, stderr=errf)
+    prog_path = outp + ".progress"
+    last_prog, last_change = None, time.time()
+    verdict = None
+    while True:
+        try:
+            rc = p.wait(timeout=0.25)
+            verdict = rc
+            break
+        except subprocess.TimeoutExpired:
+            pass
+        now = time.time()
+        try:
+            cur = open(prog_path).read()
+        except OSError:
+            cur = None
+        if cur != last_prog:
+            last_prog, last_change = cur, now
+        if item_timeout and now - last_change > item_timeout:
+            p.kill()
+            p.wait()
+            verdict = "item_timeout"
+            break
+        if timeout and now - t0 > timeout:
+            p.kill()
+            p.wait()
+            verdict = "timeout"
+            break
+    errf.seek(0)
+    se = errf.read().decode("utf-8", "replace")[-3000:]
+    errf.close()
+    return verdict, se
+
+
+def run_resumable(make_cmd, items, key, workdir_, tag, timeout, max_restarts=60, item_timeout=30):
     """Run a binary over `items` (JSON lines); the binary writes the key of the
-    item being processed to <out>.progress. A process abort (stack overflow,
-    SIGSEGV, alloc failure) is attributed to that item; the rest is resumed.
-    Returns (outputs list of parsed lines, aborted {key: info}, timed_out keys).
-    """
+    item being processed (optionally followed by a tab and a phase name) to
+    <out>.progress. A process abort (stack overflow, SIGSEGV, alloc failure) or a
+    per-item watchdog is attributed to that item; the rest is resumed.
+    Returns (outputs, aborted {key: info}, timed_out keys)."""
     outs = []
     aborted = {}
     timed_out = []
     remaining = list(items)
     rounds = 0
+    t_start = time.time()
     while remaining:
         rounds += 1
         inp = os.path.join(workdir_, "%s.in.%d.jsonl" % (tag, rounds))
@@ -87,7 +129,8 @@ def run_resumable(make_cmd, items, key, workdir_, tag, timeout, max_restarts=40)
         with open(inp, "w") as f:
             for it in remaining:
                 f.write(json.dumps(it) + "\n")
-        rc, so, se, dt = run(make_cmd(inp, outp), timeout=timeout)
+        left = None if not timeout else max(5, timeout - (time.time() - t_start))
+        rc, se = _popen_watch(make_cmd(inp, outp), outp, left, item_timeout)
         got = []
         if os.path.exists(outp):
             with open(outp) as f:
@@ -100,16 +143,16 @@ def run_resumable(make_cmd, items, key, workdir_, tag, timeout, max_restarts=40)
                     except Exception:
                         pass  # truncated last line after an abort
         outs.extend(got)
-        prog = None
+        prog, phase = None, None
         if os.path.exists(outp + ".progress"):
             prog = open(outp + ".progress").read().strip()
+            if "\t" in prog:
+                prog, phase = prog.split("\t", 1)
         if rc == 0 and prog == "DONE":
             break
         if rc == "timeout":
-            done = len(got)
-            timed_out.extend(key(it) for it in remaining[done:])
+            timed_out.extend(key(it) for it in remaining[len(got):])
             break
-        # abort: attribute to the item named in the progress file
         idx = None
         for i, it in enumerate(remaining):
             k = key(it)
@@ -117,11 +160,10 @@ def run_resumable(make_cmd, items, key, workdir_, tag, timeout, max_restarts=40)
                 idx = i
                 break
         if idx is None:
-            # cannot attribute; give up on the rest as inconclusive
             timed_out.extend(key(it) for it in remaining[len(got):])
             break
-        aborted[key(remaining[idx])] = {"rc": rc, "stderr": se[-2000:]}
-        # results for items before idx are in `got` (idx-th has no line)
+        aborted[key(remaining[idx])] = {"rc": rc, "phase": phase, "stderr": se[-1500:],
+                                        "hang": rc == "item_timeout"}
         remaining = remaining[idx + 1:]
         if rounds > max_restarts:
             timed_out.extend(key(it) for it in remaining)
